@@ -143,7 +143,7 @@ PROPS = {
                     "bytes: modelled as that guard), mime/multipart, encoding/xml, gjson (multipart/JSON/XML bodies are not in this "
                     "engine yet).",
         "assumptions": ["url.ParseRequestURI returns RawQuery = everything after the first '?' and fails only on control bytes for these inputs"],
-        "open_statements": ["multipart, JSON and XML bodies (C03_json_flatten_partial) are not modelled yet",
+        "open_statements": ["multipart and XML bodies are not modelled yet; JSON: invalid documents (what gjson makes of them) are outside the model",
                             "arguments beyond SecArgumentsLimit are dropped with only a debug log (F-C03-1, design decision: see known_findings.json)"],
     },
     "C18": {
